@@ -513,7 +513,7 @@ var grammarAlphabet = []byte{0x00, 0x01, 0x02, 0x03, 0x08, 0x0b, 0x0c, 0x0d, 0x0
 // TestC08_Exhaustive: all strings up to length k over the grammar alphabet x all 256 type tags.
 func TestC08_Exhaustive(t *testing.T) {
 	k := evid.Pick(5, 6)
-	rec := evid.New("C08", "c08_exhaustive", fmt.Sprintf("bounded-exhaustive: every byte string of length 0..%d over the 13-symbol grammar alphabet {00,01,02,03,08,0b,0c,0d,0e,0f,7f,80,ff} x (the 11 valid type tags + 0,1,5,16,0x7f,0x80,0x8b,0xff); all five skippers (allocating ones under the 1 MiB cap) vs the reference; distinct by construction; non-trivial = reference parsed >= 2 structural fields", k))
+	rec := evid.New("C08", "c08_exhaustive", fmt.Sprintf("bounded-exhaustive: every byte string of length 0..%d over the 13-symbol grammar alphabet {00,01,02,03,08,0b,0c,0d,0e,0f,7f,80,ff} x (the 11 valid type tags + 0,1,5,16,0x7f,0x80,0x8b,0xff); all five skippers (allocating ones under the 1 MiB cap) vs the reference; then every longer string up to length 6 (quick) / 8 (thorough) over the narrower alphabet {00,01,02,0b,0c,0d,0f,ff} x the 5 variable-width types; distinct by construction; non-trivial = reference parsed >= 2 structural fields", k))
 	defer rec.Flush()
 	types := append([]int8{0, 1, 5, 16, 0x7f, -128, -117, -1}, ref.Types...)
 	na := len(grammarAlphabet)
@@ -566,6 +566,50 @@ func TestC08_Exhaustive(t *testing.T) {
 			}
 		}, rec)
 	}
+	// a second, narrower alphabet enumerated deeper (longer structured sequences such as list<struct{...}>)
+	narrow := []byte{0x00, 0x01, 0x02, 0x0b, 0x0c, 0x0d, 0x0f, 0xff}
+	k2 := evid.Pick(6, 8)
+	for L := k + 1; L <= k2; L++ {
+		cnt := 1
+		for i := 0; i < L; i++ {
+			cnt *= len(narrow)
+		}
+		parallelFor(cnt, func(idx int, bt *evid.Batch) {
+			if failed {
+				return
+			}
+			buf := make([]byte, L)
+			x := idx
+			for i := 0; i < L; i++ {
+				buf[i] = narrow[x%len(narrow)]
+				x /= len(narrow)
+			}
+			for _, ty := range []int8{ref.STRING, ref.STRUCT, ref.MAP, ref.SET, ref.LIST} {
+				c := SkipCase{T: ty, Data: buf, Plan: plan}
+				var cv cov
+				v := checkSkipGrammarRec(c, &cv, nil)
+				bt.Evals++
+				if cv.nontrivial {
+					bt.Distinct++
+					bt.Nontrivial++
+				}
+				for _, l := range cv.labels {
+					bt.Labels[l]++
+				}
+				if v != nil {
+					lock <- struct{}{}
+					if !failed {
+						failed = true
+						cc := c
+						cc.Data = append([]byte(nil), buf...)
+						failEnum(t, rec, "c08_skip_grammar", cc, v)
+					}
+					<-lock
+				}
+			}
+		}, rec)
+	}
+	rec.Label(fmt.Sprintf("narrow_alphabet_up_to_length_%d", k2), 1)
 	rec.Sample(SkipCase{T: ref.MAP, Data: []byte{0x0b, 0x0c, 0, 0, 0, 1}, Plan: plan})
 	rec.SetExhaustive()
 	_ = total
